@@ -26,12 +26,12 @@ pub struct MinCases {
 }
 
 impl MinCases {
-    /// `order` decides minimality (compared as (len, bytes)); `label` is what is shown in the key.
+    /// `order` decides minimality (compared lexicographically: put the important dimensions first); `label` is what is shown in the key.
     pub fn offer(&mut self, group: &str, order: &[u8], label: impl FnOnce() -> String, desc: impl FnOnce() -> String, replay: impl FnOnce() -> Value) {
         match self.groups.get_mut(group) {
             Some(cur) => {
                 cur.4 += 1;
-                if (order.len(), order) < (cur.0.len(), cur.0.as_slice()) {
+                if order < cur.0.as_slice() {
                     *cur = (order.to_vec(), label(), desc(), replay(), cur.4);
                 }
             }
@@ -45,7 +45,7 @@ impl MinCases {
             match self.groups.get_mut(&g) {
                 Some(cur) => {
                     let n = cur.4 + v.4;
-                    if (v.0.len(), v.0.as_slice()) < (cur.0.len(), cur.0.as_slice()) {
+                    if v.0 < cur.0 {
                         *cur = v;
                     }
                     cur.4 = n;
